@@ -149,6 +149,14 @@ func c03Judge(c *Ctx, cs *c03Case, out rm.Outcome, panicked bool, elapsed, T tim
 		return
 	}
 	ok := out.Err == ""
+	if cs.decoy != nil && ok && !cs.op.NoReply {
+		// whatever the controller's own datagrams were: a result that carries the decoy's marker was taken from a datagram that came
+		// from another address than the controller's
+		if got, has := markerOf(cs.op, out); has && got == 0x0d&markerMask(cs.op) && exp.marker&markerMask(cs.op) != got {
+			c.Res.Violate(key+":foreign-content:reply-from-another-address", fmt.Sprintf("%s over %s: the result carries the marker (%d) of a datagram that was sent to the call's port from another address than the controller's (the controller's own datagrams: [%s])", cs.op.Name, cs.path, got, seqString(cs.seq)), w, caseNo)
+			return
+		}
+	}
 	switch {
 	case exp.outcome == "success" && !ok:
 		c.Res.Violate(key+":rejected-valid", fmt.Sprintf("%s over %s with datagrams [%s]: a valid reply from the addressed controller was not accepted: %s", cs.op.Name, cs.path, seqString(cs.seq), out.Err), w, caseNo)
